@@ -6,6 +6,7 @@ documentation — no server exists in the sandbox). `wellScoped` (Model/C03Bind.
 Name resolution never reads table contents, so every statement below holds for every database instance of the schema.
 -/
 import Dawgs.Proofs.C03
+import Dawgs.Proofs.C03Frag
 import Dawgs.Model.SqlSchema
 import Dawgs.Generated.Schema
 namespace Dawgs.C03.Props
@@ -81,6 +82,47 @@ theorem cte_columns_match (Γ : Env) (sc : Scope) (own : List String) (acc out :
       split at h
       · cases h
       · exact h
+
+/-! ### parameters, and the statement for a translator -/
+
+/-- `params_closed`: when the binder accepts a statement under the parameter names `ps`, name resolution with exactly these
+parameters never reports a missing parameter — every `@p` the statement uses is among `ps` -/
+theorem params_closed (cat : Catalog) (ps : List String) (u : Bool) (s : Stmt) (h : wellScoped ⟨cat, ps, u⟩ s = true) (p : String) :
+    resolve ⟨cat, ps, u⟩ s ≠ .error (.missingParam p) :=
+  wellScoped_no_error ⟨cat, ps, u⟩ s h _
+
+/-- and a statement that uses a parameter outside `ps` is rejected by the binder (contrapositive, on the resolution semantics) -/
+theorem missing_param_rejected (cat : Catalog) (ps : List String) (u : Bool) (s : Stmt) (p : String)
+    (h : resolve ⟨cat, ps, u⟩ s = .error (.missingParam p)) : wellScoped ⟨cat, ps, u⟩ s = false := by
+  cases hw : wellScoped ⟨cat, ps, u⟩ s with
+  | false => rfl
+  | true => exact absurd h (params_closed cat ps u s hw p)
+
+/-- FULL STATEMENT for a translator `T` (the real translator is Go code: stated for an arbitrary function): every statement it produces
+resolves under the schema catalogue with exactly the parameter names of its own parameter map — no unbound / ambiguous name, no
+CTE arity mismatch, no missing parameter. -/
+def C03_for (T : KindMap → Cy.Query → Option (Stmt × List (String × Val))) : Prop :=
+  ∀ (km : KindMap) (q : Cy.Query) (st : Stmt) (ps : List (String × Val)), T km q = some (st, ps) →
+    ∃ cols, resolve ⟨schema, ps.map (·.1), false⟩ st = .ok cols
+
+/-- C03 at the strength of properties.jsonl: for a total extension of the model translator. Undischarged; what the check does for
+the real translator is per-output validation by the verified binder. -/
+def C03_full : Prop :=
+  ∃ T : KindMap → Cy.Query → Option (Stmt × List (String × Val)),
+    (∀ km q r, C01.tr km q = some r → T km q = some r) ∧ (∀ km q, ∃ r, T km q = some r) ∧ C03_for T
+
+/-- THE PROVED PART: the model translator of C01 (stage S1) only produces closed statements -/
+theorem c03_partial : C03_for C01.tr := by
+  intro km q st ps h
+  unfold C01.tr at h
+  cases ho : C01.ofCy q with
+  | none => rw [ho] at h; cases h
+  | some s =>
+    rw [ho] at h
+    simp only [Option.map_eq_some_iff] at h
+    obtain ⟨st', hst, heq⟩ := h
+    cases heq
+    exact wellScoped_sound _ _ (C03.Frag.tr_wellScoped km s _ hst)
 
 /-! ### non-vacuity -/
 
